@@ -1,5 +1,6 @@
 import GB.C05.Witness
 import GB.C05.PipelineProofs
+import GB.C05.Deciders
 /-
   C05 — reflection resolution reproduces the target's contract for any conformant server.
   Property theorems only; helper lemmas live in Proofs.lean, vocabulary in Spec.lean.
@@ -474,4 +475,60 @@ theorem C05_close_fixed_witness :
        .mainJoin, .closeSend, .closeRecvCall, .closeRecvRet, .closeClose]).map (fun s => (s.result.map Except.toOption, s.mpc)) =
       some (some (some []), .closed) := by
   decide
+
+/-! ## the driver's deciders are the theorems' predicates
+
+The differential run demands success ("must") exactly when the executable checks below hold on the
+scripted target and on the logged conversation.  These theorems show that this is exactly the hypothesis
+set of `C05_complete_any` / `C05_complete_focused`. -/
+
+/-- `withinB` / `reachB` decide `Within` / `Reach`; `wfFilesB` decides `WFFiles`; `depthFits` decides the
+    depth hypothesis of `C05_complete_focused`; the per-event checkers decide the conformance / focus clauses. -/
+theorem C05_deciders_sound (cfg : Cfg) (srv : Server) :
+    (∀ roots k n, n ∈ withinB srv.files roots k ↔ Within srv.files roots k n) ∧
+    (∀ roots n, n ∈ reachB srv.files roots ↔ Reach srv.files roots n) ∧
+    (wfFilesB srv.files = true ↔ WFFiles srv.files) ∧
+    (∀ n, n ∈ specNames cfg srv.listed ↔ wanted cfg srv.listed n) ∧
+    (specRoots cfg srv.files srv.listed = rootNames cfg srv) ∧
+    (depthFits cfg srv.files srv.listed = true ↔
+      ∀ n, Reach srv.files (rootNames cfg srv) n → Within srv.files (rootNames cfg srv) cfg.limit n) ∧
+    (∀ e, conformantEvent srv.files srv.listed e = true ↔ ConformantEvent srv e) ∧
+    (∀ e, focusedEvent srv.files e = true ↔ FocusedEvent srv e) :=
+  ⟨fun roots k n => mem_withinB srv.files roots k n, fun roots n => mem_reachB srv.files roots n,
+   wfFilesB_iff srv.files, mem_specNames cfg srv.listed, specRoots_eq cfg srv, depthFits_iff cfg srv,
+   conformantEvent_iff srv, focusedEvent_iff srv⟩
+
+/-- A log all of whose events pass the conformance checker is the beginning of a conversation with a
+    `Conformant` service (and `Focused`, if they pass the focus checker too): there is a policy that
+    answers exactly as logged wherever the log has the request at hand, and conformantly everywhere else. -/
+theorem C05_conformant_log_extends (srv : Server) (evs : List Event)
+    (hconf : evs.all (conformantEvent srv.files srv.listed) = true) :
+    ∃ pol, Agrees pol evs ∧ Conformant srv pol ∧
+      (evs.all (focusedEvent srv.files) = true → Focused srv pol) := by
+  refine ⟨extendPol srv evs, extendPol_agrees srv evs, ?_, ?_⟩
+  · exact extendPol_conformant srv evs fun e he => (conformantEvent_iff srv e).1 (List.all_eq_true.1 hconf e he)
+  · intro hfoc
+    exact extendPol_focused srv evs fun e he => (focusedEvent_iff srv e).1 (List.all_eq_true.1 hfoc e he)
+
+/-- "Success is mandatory here": when the driver's checks hold — the target's files pass `wfFilesB`, every
+    wanted name is defined, every logged event passes `conformantEvent`, and either `#files ≤ limit` or
+    all events pass `focusedEvent` and `depthFits` — then the logged conversation belongs to a service for
+    which `C05_complete_*` applies: with it, under every fair schedule, the resolver model succeeds with the
+    target's complete contract.  So an implementation that errs on such a conversation violates the property. -/
+theorem C05_mandatory_success_justified (cfg : Cfg) (srv : Server) (evs : List Event)
+    (hno : cfg.onlyServices = false)
+    (hwf : wfFilesB srv.files = true)
+    (hdef : (specNames cfg srv.listed).all (fun n => (findService srv.files n).isSome) = true)
+    (hconf : evs.all (conformantEvent srv.files srv.listed) = true)
+    (hfit : srv.files.length ≤ cfg.limit ∨
+      (evs.all (focusedEvent srv.files) = true ∧ depthFits cfg srv.files srv.listed = true)) :
+    ∃ pol, Agrees pol evs ∧ Conformant srv pol ∧
+      ∀ sched, FairSched sched →
+        ∃ h ok, runStream (dedupFiles []) cfg pol sched = (h, .ok ok) ∧ Complete cfg srv ok := by
+  rcases C05_conformant_log_extends srv evs hconf with ⟨pol, hag, hc, hfoc⟩
+  have hWF := wf_of_deciders cfg srv hwf hdef
+  refine ⟨pol, hag, hc, fun sched hfair => ?_⟩
+  rcases hfit with hlen | ⟨hf, hd⟩
+  · exact C05_complete_any hWF hc hfair hno hlen
+  · exact C05_complete_focused hWF hc (hfoc hf) hfair hno ((depthFits_iff cfg srv).1 hd)
 
